@@ -282,6 +282,30 @@ def gen_dyadic(rnd, elev):
     return net(d1), net(d2)
 
 
+def gen_joint(rnd, elev):
+    """two curved pieces joined end-to-start: the first ends where the second starts, and that point is a corner of both
+    control-point boxes (coordinates non-decreasing along both nets), so the boxes are tangent in a corner; the tangent
+    directions at the joint differ.  The presentations (swap, reverse1, reverse2) turn the (1,0) joint into all four
+    end-point pairings"""
+    d1, d2 = rnd.randint(2, 4), rnd.randint(2, 4)
+    f = elev_factor(d1, d2, elev)
+
+    def mono(d, x0, y0):
+        xs, ys = [x0], [y0]
+        for _ in range(d):
+            xs.append(xs[-1] + rnd.randint(0, 3) * f)
+            ys.append(ys[-1] + rnd.randint(0, 3) * f)
+        return [[Fr(v) for v in xs], [Fr(v) for v in ys]]
+    for _ in range(100):
+        a = mono(d1, 0, 0)
+        b = mono(d2, int(a[0][-1]), int(a[1][-1]))
+        ta = (a[0][-1] - a[0][-2], a[1][-1] - a[1][-2])
+        tb = (b[0][1] - b[0][0], b[1][1] - b[1][0])
+        if ta != (0, 0) and tb != (0, 0) and ta[0] * tb[1] - ta[1] * tb[0] != 0 and (b[0][-1], b[1][-1]) != (b[0][0], b[1][0]):
+            return a, b
+    return gen_lattice(rnd, elev)
+
+
 def gen_smooth(rnd, elev):
     """regular looking curves sweeping across each other: several transversal crossings; magnitude <= 8,
     10 fractional bits"""
@@ -668,7 +692,7 @@ def main():
 
     mult = (3.0 if cfg == "speedup" else 0.8) * (12 if thorough else 1) * (1.5 if search else 1)
     plan = [("zoo", None, None), ("lattice", gen_lattice, int(520 * mult)), ("dyadic", gen_dyadic, int(420 * mult)),
-            ("smooth", gen_smooth, int(260 * mult))]
+            ("smooth", gen_smooth, int(260 * mult)), ("joint", gen_joint, int(60 * mult))]
     idx = 0
     # hand-made pairs: transversal crossings at the split junction, at end points, and the known C03 family
     fixed = [([[0, 2, 4], [0, 4, 0]], [[2, 2], [0, 4]], "fixed-junction"),
@@ -700,8 +724,11 @@ def main():
     def valid_triangle(d, unit):
         while True:
             t = gen_triangle(rnd, d, unit, -8, 8)
-            if bezier.Triangle(C.farr(t), d, copy=False).is_valid:
-                return t
+            try:
+                if bezier.Triangle(C.farr(t), d, copy=False).is_valid:
+                    return t
+            except ValueError:          # "Did not reach a conclusion after max subdivisions": not usable as a valid input
+                pass
             res.skip("generator:invalid-triangle-rejected")
 
     n_tri = int((150 if cfg == "speedup" else 40) * (10 if thorough else 1) * (1.5 if search else 1))
